@@ -23,6 +23,9 @@ def handle_cell(cell: Cell, titles: Dict[str, int]):
 
     if isinstance(cell.row, str):
         if cell.row:
+            if int(cell.row) < 1:
+                # rows are numbered from 1: A0 would become the method name _0_0_-1 in the generated class
+                raise E2PyclCellException(f'Invalid row number of {cell}')
             cell.row = int(cell.row) - 1
         else:
             cell.row = None
